@@ -59,15 +59,14 @@ var c19Fragments = []string{
 }
 
 func stringsUpTo(atoms []string, n int) []string {
-	seen := map[string]struct{}{}
-	var out []string
-	add := func(s string) {
-		if _, ok := seen[s]; !ok {
-			seen[s] = struct{}{}
-			out = append(out, s)
-		}
-	}
-	add("")
+	out, _ := stringsWithLevel(atoms, n)
+	return out
+}
+
+// stringsWithLevel: every distinct string of <= n atoms, and the least number of atoms that builds it.
+func stringsWithLevel(atoms []string, n int) ([]string, map[string]int) {
+	level := map[string]int{"": 0}
+	out := []string{""}
 	prev := []string{""}
 	for l := 1; l <= n; l++ {
 		var cur []string
@@ -77,11 +76,14 @@ func stringsUpTo(atoms []string, n int) []string {
 			}
 		}
 		for _, s := range cur {
-			add(s)
+			if _, ok := level[s]; !ok {
+				level[s] = l
+				out = append(out, s)
+			}
 		}
 		prev = cur
 	}
-	return out
+	return out, level
 }
 
 // ---------------------------------------------------------------------------
@@ -519,11 +521,8 @@ func reportStr(env *mc.Env, via string, c strCall, got outcome, classes map[stri
 
 func runC19(env *mc.Env) {
 	hayLen := mc.Pick(env, 3, 4)
-	hays := stringsUpTo(c19Atoms, hayLen)
+	hays, level := stringsWithLevel(c19Atoms, hayLen)
 	needles := append(stringsUpTo(c19Atoms, 2), c19Fragments...)
-	if env.Thorough() {
-		// quick: haystacks of 3 atoms see needles of <= 1 atom + fragments + the needles made of their own atoms (below)
-	}
 	short := append(stringsUpTo(c19Atoms, 1), c19Fragments...)
 	env.R.Set("haystacks", len(hays))
 	env.R.Set("needles", len(needles))
@@ -543,10 +542,10 @@ func runC19(env *mc.Env) {
 				reportStr(env, "direct", c, shared.eval(c), classes)
 				n++
 			}
-			// quick tier: strings of three atoms meet the short needles and every needle built from
-			// substrings of their own source (those are the ones that can occur); shorter strings meet all needles
+			// receivers of the longest level (3 atoms quick, 4 thorough) meet the short needles and every
+			// contiguous code-point substring of their own source (the needles that can occur); shorter ones meet all needles
 			ns := needles
-			if !env.Thorough() && len([]rune(h)) > 0 && atomCount(h) >= 3 {
+			if level[h] >= hayLen {
 				ns = append(append([]string{}, short...), ownSubstrings(h)...)
 			}
 			for _, nd := range ns {
@@ -623,12 +622,6 @@ func runC19(env *mc.Env) {
 	}
 }
 
-// atomCount: how many atoms the enumerator used for h is not recoverable in
-// general; use the number of code points as a proxy (>= 3 means "long").
-func atomCount(h string) int {
-	return len([]rune(h))
-}
-
 // ownSubstrings: every contiguous code-point substring of h of at most 5 code points.
 func ownSubstrings(h string) []string {
 	r := []rune(h)
@@ -672,7 +665,7 @@ func init() {
 	mc.Register(&mc.Check{
 		ID: "C19",
 		Rule: "atoms {a, A, é composed, e+U+0301, CRLF, CR, LF, flag, lone regional indicator, ZWJ family, heart+VS16, Hangul L/V/T jamo and syllable, lone combining mark, lone ZWJ}; every string of <= 3 atoms (thorough: 4) as receiver: nfc/utf8/length/iteration/toLower/hex round trip, every index -1..len+1, every (from, upTo) pair in -1..len+1; with every string of <= 2 atoms and every code-point fragment of an atom as second operand: concat, ==, < <= > >=, contains, index, count, split, replaceAll (3 replacements), join " +
-			"(quick: receivers of >= 3 code points meet needles of <= 1 atom, the fragments, and every substring of their own source); called directly on shared StringValues (cached iterator state carries over) and on fresh ones; every string of <= 2 atoms x needles of <= 1 atom + fragments again as scripts on both engines. Reference: NFC (x/text) + grapheme segmentation (uniseg) into []string, operations written naively on the slice. non-trivial = distinct (receiver, needle) with a byte occurrence.",
+			"(receivers of the longest level meet needles of <= 1 atom, the fragments, and every code-point substring of their own source); called directly on shared StringValues (cached iterator state carries over) and on fresh ones; every string of <= 2 atoms x needles of <= 1 atom + fragments again as scripts on both engines. Reference: NFC (x/text) + grapheme segmentation (uniseg) into []string, operations written naively on the slice. non-trivial = distinct (receiver, needle) with a byte occurrence.",
 		Assumptions: []string{"golang.org/x/text/unicode/norm and github.com/rivo/uniseg (step API) are the trusted reference for NFC and UAX #29",
 			"empty needle, overlapping occurrences, prefix-cluster ordering and context-sensitive lower-casing are don't-care cells"},
 		Run:    runC19,
